@@ -1,9 +1,9 @@
 """C18 — Results depend only on explicit arguments, not on process history."""
 
-from .. import fx
+from .. import fx, state
 
 LEVEL = "other"
-TECHNIQUE = "global-state effect lints: enumeration of every read of the mutable global parameter object, cache-key vs builder read-set comparison, memo-site purity, memo identity, precision pinning"
+TECHNIQUE = "global-state effect lints: enumeration of every read of the mutable global parameter object, cache-key vs builder read-set comparison, memo-site purity, memo identity, precision pinning; inventory of every write to module-level state with a parameter-dependency analysis of memo keys"
 LEVEL_TEXT = (
     "Decides which functions read the mutable global parameter object (only the sanctioned resolver may), whether "
     "each FMM cache key contains every parameter its builder reads, whether memoised values of a space are computed "
@@ -13,7 +13,7 @@ LEVEL_TEXT = (
     "findings)."
 )
 LEVEL_NOTE = "Not decided: single- vs double-precision accuracy; equality with a fresh interpreter as an observation (needs execution)."
-EXPLANATION = "rules FX-GLOBAL-READ, FX-PARAM-SNAPSHOT, FX-PARAM-FORWARD, FX-CACHE-KEY, FX-MEMO, WEAKFORM-MEMO, PRECISION-PIN"
+EXPLANATION = "rules FX-GLOBAL-READ, FX-PARAM-SNAPSHOT, FX-PARAM-FORWARD, FX-CACHE-KEY, FX-MEMO, WEAKFORM-MEMO, PRECISION-PIN, FX-PROCESS-STATE"
 ASSUMPTIONS = ["GLOBAL_PARAMETERS is the only mutable module-level configuration object that affects numerical results (DEFAULT_* are read at construction through the same pattern)"]
 
 
@@ -24,3 +24,4 @@ def run(ctx):
     fx.memo_sites(ctx)
     fx.weak_form_memo(ctx)
     fx.precision_pin(ctx)
+    state.process_state(ctx)
